@@ -16,6 +16,59 @@ CLAIMS = {
             "Vec is the reference model; bounded depth and length; no random long sequences.",
             "explicit-state exploration of the real code (exhaustive operation histories vs. reference model)",
             "h_runtime/c11"),
+    "C10": ("model_checking",
+            "Sequential half: every history up to the depth bound over {from value/Arc/Option<Arc>, default, clone, take, transpose both ways, "
+            "into_opaque, into_arc, drop} on a pool of typed and opaque CArc/CArcSome handles is executed on the real code against a "
+            "reference model (multiset of handles per allocation); strong counts, payload drop counts, pointer identity, the stored "
+            "function pointers (C view) and allocator balance are checked after every step; full enumeration plus BFS to closure of the "
+            "canonical state space. Concurrent half: loom explores all interleavings (preemption-bounded) of 2-3 threads operating on handles "
+            "to one allocation over the real arc.rs compiled against loom's Arc.",
+            "DESIGN.md §4 C10",
+            "std Arc / loom's Arc model trusted; bounded pools, depths and preemptions.",
+            "explicit-state exploration of the real code + loom (DPOR over all interleavings within a preemption bound)",
+            "h_runtime/c10 + h_loom_arc"),
+    "C12": ("exploration",
+            "Exhaustive input enumeration: every sub-slice (offset x length) of a backing buffer for four element types through every "
+            "conversion and write path of CSliceRef/CSliceMut; every byte string up to a length bound over an alphabet of UTF-8 boundary "
+            "bytes for the &str decision against core::str::from_utf8; every variant of COption/CResult/CTup1-4 with drop-counting, zero-sized "
+            "and extreme payloads.",
+            "DESIGN.md §4 C12",
+            "from_utf8 is the reference; lengths above the bound not covered.",
+            "exhaustive enumeration of a bounded input domain on the real code",
+            "h_runtime/c12"),
+    "C13": ("exploration",
+            "All four integer-result functions on every Ok/Err x shipped error type with drop-counting payloads and a poisoned output slot; "
+            "ALL 2^32 raw OS error codes through encode/decode (both tiers); every listed non-OS ErrorKind. "
+            "(The generated-code half — traits marked int_result — is added by the object harness when it is built.)",
+            "DESIGN.md §4 C13",
+            "std::io::Error::raw_os_error is the reference for 'same OS code'. Generated int_result traits are not yet covered by this check.",
+            "exhaustive enumeration of the complete input domain (2^32 codes) on the real code",
+            "h_runtime/c13"),
+    "C14": ("exploration",
+            "Every string of up to L symbols over {NUL, a, b, 2-byte, 3-byte sequence} through From<&str>, From<String>, From<&[u8]>; the raw "
+            "buffer is inspected through the tracking allocator (one block, exactly prefix+1 bytes, exactly one NUL), all value-semantics "
+            "methods are compared with the expected prefix, and the allocation must be freed once with its allocated size.",
+            "DESIGN.md §4 C14",
+            "Inputs longer than the bound not covered; invalid UTF-8 byte slices are outside the property's quantifier.",
+            "exhaustive enumeration of a bounded input domain on the real code, crash-isolated",
+            "h_runtime/c14"),
+    "C15": ("model_checking",
+            "Callbacks: every (length, stop position, sink kind, delivery path) cell with drop-counting items. Iterators: for every source "
+            "iterator shape and length, every operation sequence up to a depth over {next through each wrapper constructor, two nexts on one "
+            "wrapper, next on the source directly, wrap-and-release} is executed from scratch and compared step by step with a model of the source.",
+            "DESIGN.md §4 C15",
+            "Bounded lengths/depths.",
+            "explicit-state exploration of the real code (all operation sequences up to a depth vs. reference model)",
+            "h_runtime/c15"),
+    "C16": ("exploration",
+            "Matrix runtime type x element layout x direction: values made by the Rust API are operated only through #[repr(C)] mirror structs "
+            "transcribed from the published header (release, clone, read, grow, append, invoke, advance), and values assembled field by field "
+            "are consumed by the Rust API; effects (drop counts, refcounts, contents, call counts) must equal those of the Rust operation; "
+            "tag values and payload offsets of COption/CResult are read and written as raw C structs.",
+            "DESIGN.md §4 C16",
+            "Mirror structs are a faithful transcription of the published declarations; rustc repr(C) == C ABI on this target.",
+            "exhaustive enumeration of a finite type/operation matrix on the real code",
+            "h_runtime/c16"),
 }
 
 NOT_YET = {}
@@ -64,6 +117,7 @@ def main():
             {"name": "explore", "path": "/verif/engine/explore", "serves_properties": sorted(CLAIMS), "kind_free_text": "history explorer over the real code (full enumeration + canonical-state BFS), crash-isolating driver, replay"},
             {"name": "instr", "path": "/verif/engine/instr", "serves_properties": sorted(CLAIMS), "kind_free_text": "tracking global allocator (layout, double free, red zones, leaks), drop-counting payloads"},
             {"name": "h_runtime", "path": "/verif/engine/h_runtime", "serves_properties": [c for c in sorted(CLAIMS) if CLAIMS[c][5].startswith("h_runtime")], "kind_free_text": "harness binaries for the runtime wrapper types"},
+            {"name": "h_loom_arc", "path": "/verif/engine/h_loom_arc", "serves_properties": ["C10"], "kind_free_text": "loom model of the real cglue/src/arc.rs (hook h33p_cglue_verif swaps std Arc for loom Arc)"},
         ],
         "checks": checks,
         "not_applicable": na,
